@@ -225,6 +225,7 @@ var subjects = []string{"message", "f1", "t1", "v1", "nokey", "n1"}
 
 func (g *grokGen) grokCall(fields map[string]any, tags map[string]string) []*gen.Node {
 	nItems := g.n("nitems", 1, 3)
+	usedCaps := map[string]bool{}
 	var parts, example []string
 	usedInvisible := false
 	for i := 0; i < nItems; i++ {
@@ -255,7 +256,23 @@ func (g *grokGen) grokCall(fields map[string]any, tags map[string]string) []*gen
 		}
 		item := "%{" + name
 		if g.n("capture", 0, 4) != 0 {
-			item += fmt.Sprintf(":c%d", i)
+			// capture names of one expression name distinct keys (two captures for one key: which one wins is unspecified)
+			capName := fmt.Sprintf("c%d", i)
+			switch g.n("capname", 0, 11) {
+			case 0:
+				if !usedCaps["message"] {
+					capName = "_" // the message alias as a capture name
+					usedCaps["message"] = true
+					g.feat["capture-named-like-the-message-alias"] = true
+				}
+			case 1:
+				if sj := subjects[g.n("capsubj", 0, len(subjects)-1)]; !usedCaps[sj] {
+					capName = sj // an existing key / variable / tag name
+					usedCaps[sj] = true
+					g.feat["capture-named-like-an-existing-key"] = true
+				}
+			}
+			item += ":" + capName
 			if g.n("typed", 0, 1) == 0 {
 				item += ":" + []string{"int", "float", "bool", "str"}[g.n("ty", 0, 3)]
 				g.feat["typed-capture"] = true
